@@ -226,6 +226,7 @@ class Wrap(PaneBase, Generic[T]):
 class Deep2(PaneBase, Generic[T]):
     nested: Box[Wrap[T]]                      # T sits two parameterised dataclasses deep
     both: Dict[str, Box[Wrap[T]]] = field(default_factory=dict)
+    comp: Optional[Box[List[T]]] = None       # T inside a compound argument of a parameterised dataclass
 
 class Deep2Fwd(Deep2[U]):
     pass
@@ -539,7 +540,7 @@ except Exception:
     CRATE_INT = DEEP2 = None
 
 
-@obligation(pre="0 <= k <= 5 and 0 <= where <= 5", witnesses=(0, -1), timeout=120)
+@obligation(pre="0 <= k <= 5 and 0 <= where <= 7", witnesses=(0, -1), timeout=120)
 def body_nested_generic(k: int, i: int, s: str, where: int) -> int:
     """Crate[int] has inner: Box[int] and many: List[Box[int]]; Deep2[int] has nested: Box[Wrap[int]]: the argument reaches the nested generic dataclasses at any depth"""
     if CRATE_INT is None:
@@ -551,6 +552,9 @@ def body_nested_generic(k: int, i: int, s: str, where: int) -> int:
         data = {'inner': {'item': v}}
     elif where == 1:
         data = {'inner': {'item': 1}, 'many': [{'item': v}]}
+    elif where >= 6:
+        cls = DEEP2[where - 6]
+        data = {'nested': {'item': {'inner': 1}}, 'comp': {'item': [v]}}
     else:
         cls = DEEP2[0] if where <= 3 else DEEP2[1]
         if where % 2 == 0:
@@ -572,7 +576,7 @@ def body_nested_generic(k: int, i: int, s: str, where: int) -> int:
 
 
 for _k in range(6):
-    for _w in range(6):
+    for _w in range(8):
         try:
             body_nested_generic(_k, 1, 'a', _w)
         except Exception:
